@@ -259,6 +259,34 @@ class InitRoots(Spec):
         return [("the loop ends", z3.BoolVal(True))]
 
 
+class PathMatrixCreation(Spec):
+    """the statement that creates the path matrix: a square BOOLEAN matrix over the nodes, all False (what the transition contracts
+    below take as their starting point: `|=` / `= True` on it are set operations; a counting matrix of a narrow integer type would
+    wrap around)."""
+    target = DAG
+    fragment = (lambda t: t.startswith("path_matrix = "), lambda t: t.startswith("path_matrix = "))
+
+    def setup(self, cx, cfg):
+        import torch as _torch
+        n = z3.Int("n_nodes")
+        return dict(env={"n_nodes": SV(n, "int"), "nodes": SSeq(cx, STR, "nodes", pytype=list), "torch": _torch}, n=n)
+
+    def pre(self, cx, st):
+        return [("number of nodes", z3.And(st["n"] >= 0, st["env"]["nodes"].length == st["n"]))]
+
+    def post(self, cx, st, out):
+        P = out.value.get("path_matrix")
+        ok = isinstance(P, STensor) and P.ndim == 2
+        res = [("a 2-D tensor", z3.BoolVal(bool(ok)))]
+        if ok:
+            i, j = z3.Ints("i_c j_c")
+            res += [("of booleans", z3.BoolVal(P.dtype == "bool")),
+                    ("one row and one column per node", z3.And(dim_z3(P.shape_[0]) == st["n"], dim_z3(P.shape_[1]) == st["n"]))]
+            if P.dtype == "bool":
+                res.append(("all False", z3.ForAll([i, j], z3.Implies(z3.And(0 <= i, i < st["n"], 0 <= j, j < st["n"]), z3.Not(P.fn((i, j)))))))
+        return res
+
+
 class AcyclicityTest(Spec):
     """the statement after the loop: ValueError ('not a DAG') iff some node was never emitted (given that only nodes are emitted)."""
     target = DAG
@@ -376,7 +404,7 @@ def kahn_invariant_lemmas():
     return out
 
 
-UNITS = [InitRoots(), EdgeStep(), NodeStep(), AcyclicityTest()]
+UNITS = [PathMatrixCreation(), InitRoots(), EdgeStep(), NodeStep(), AcyclicityTest()]
 CALLEES = []
 ASSUMPTIONS = ["C15: queue.SimpleQueue as a FIFO sequence (put appends, get removes the front); len(s) == 0 iff the set s is empty; "
                "frozenset.difference by its set-algebra meaning; a boolean tensor column update `P[:, j] |= P[:, i]` entry-wise",
